@@ -511,6 +511,13 @@ pub fn dispatch(t: &[Tok]) -> String {
                         stack.last_mut().unwrap().update(&d);
                         i += 3;
                     }
+                    "uzero" => {
+                        // update with ONE slice of n zero bytes (n may exceed 4 GiB)
+                        let k = n(t, i + 1) as usize;
+                        let d = vec![0u8; k];
+                        stack.last_mut().unwrap().update(&d);
+                        i += 2;
+                    }
                     "f" => {
                         out.push(res_hash(stack.last().unwrap().finalize_with_options(&options(n(t, i + 1)))));
                         i += 2;
